@@ -715,6 +715,8 @@ def eval_tree(e, env):
     if k == "lit":
         if "v" in e:
             return e["v"]
+        if "s" in e:
+            return e["s"]          # string literal
         raise Unknown(t)
     if k == "enum":
         return e["val"]
@@ -742,9 +744,23 @@ def eval_tree(e, env):
         if op == "||":
             return bool(eval_tree(ops[0], env)) or bool(eval_tree(ops[1], env))
         a, b = eval_tree(ops[0], env), eval_tree(ops[1], env)
-        return {"==": a == b, "!=": a != b, "<": a < b, ">": a > b, "<=": a <= b, ">=": a >= b,
-                "&": a & b, "|": a | b, "+": a + b, "-": a - b}[op] if op in ("==", "!=", "<", ">", "<=", ">=", "&", "|", "+", "-") else \
-            (a * b if op == "*" else (int(a / b) if op == "/" and b != 0 else (int(a - b * int(a / b)) if op == "%" and b != 0 else _unk(t))))
+        try:
+            if op == "==": return a == b
+            if op == "!=": return a != b
+            if op == "<": return a < b
+            if op == ">": return a > b
+            if op == "<=": return a <= b
+            if op == ">=": return a >= b
+            if op == "&": return a & b
+            if op == "|": return a | b
+            if op == "+": return a + b
+            if op == "-": return a - b
+            if op == "*": return a * b
+            if op == "/" and b != 0: return int(a / b)
+            if op == "%" and b != 0: return int(a - b * int(a / b))
+        except TypeError:
+            raise Unknown(t)
+        raise Unknown(t)
     if k == "cond":
         return eval_tree(e["t"], env) if eval_tree(e["c"], env) else eval_tree(e["f"], env)
     if k == "call" and callee_short(e) in ("min", "max") and len(e.get("args") or []) == 2 and e.get("recv") is None:
@@ -752,6 +768,12 @@ def eval_tree(e, env):
         return min(a, b) if callee_short(e) == "min" else max(a, b)
     if k in ("construct", "cast") and len(e.get("args") or []) == 1:
         return eval_tree(e["args"][0], env)
+    if k == "construct" and str(e.get("rec", "")) == "std::basic_string" and e.get("args"):
+        return eval_tree(e["args"][0], env)          # std::string("literal")
+    # a rule may model selected calls (configuration look-ups with a default, string -> number conversions, ...): env["$call"](node, env)
+    h = env.get("$call") if isinstance(env, dict) else None
+    if h is not None and k == "call":
+        return h(e, env)
     raise Unknown(t)
 
 
